@@ -88,7 +88,10 @@ def sec_147():
             'C20 - existence mappings keyed on design-variable / metric nodes; C04 - enumeration with fixed variables (the',
             'property\'s "with/without fixed variables"); C01/C03 - two connection choices per problem; C16 - preset values on',
             'the design space graph and a late re-check of earlier instances; C02 - overlapping derivation paths, components',
-            'no start node derives, corpus of minimised past failures.', '']
+            'no start node derives, corpus of minimised past failures. Second round (ids ...-s3): C17 - evaluator values that are',
+            'exact zeros / negative / -0.0; C05 - more problems per run and a larger share of constrained problems, an',
+            'independent choice next to the constrained ones; C06/C02 - the order of construction varied (selection choices',
+            'declared before the derivation edges), since the library\'s traversals see edges in insertion order.', '']
     return out
 
 
